@@ -4,71 +4,122 @@
 (* (p2p/net/pnet/psk_conn.go).  The writer sends a random nonce in front   *)
 (* of its FIRST write (also an empty one) and XORs a key stream; the       *)
 (* reader takes the nonce with io.ReadFull in front of its first read and  *)
-(* then passes every read of the underlying connection through (short      *)
-(* reads included).  No integrity: only the fidelity clause applies.       *)
+(* then passes every read of the underlying connection through - short     *)
+(* reads included, and ALSO what io.Reader allows besides: bytes that      *)
+(* arrive together with an error (a timeout: the stream goes on; io.EOF:   *)
+(* the last bytes), and a temporary error before any byte.  The bytes that *)
+(* come with an error are decrypted and count like any others.             *)
+(* No integrity: only the fidelity clause applies.                         *)
 (* A data unit on the wire is [pos |-> position in the payload, ks |->     *)
 (* key-stream position it was XORed with]; it decrypts to pos iff the      *)
 (* reader is at the same key-stream position, otherwise to garbage (0).    *)
+(*                                                                         *)
+(* Glitches are armed only once the nonce is through (rn / wn): a          *)
+(* transient error INSIDE the nonce exchange loses nonce bytes in          *)
+(* io.ReadFull / re-rolls the nonce in Write, after which this layer can   *)
+(* only garble (no integrity); that is outside the property's quantifier   *)
+(* and is not claimed.  A short write ends the writer's part (the key      *)
+(* stream was advanced over the whole input: the code's quirk).            *)
 (***************************************************************************)
 EXTENDS Naturals, Sequences, TLC
 
-CONSTANTS NonceLen, MaxSent, MaxWrite, Bufs, Shorts
+CONSTANTS NonceLen, MaxSent, MaxWrite, Bufs, Shorts,
+          Glitches     \* subset of {"dataerr", "temperr", "shortwrite", "eofdata"}
 
-VARIABLES nsent, wn, wks, wire, rn, rks, rbad, delivered, under, op
-vars == <<nsent, wn, wks, wire, rn, rks, rbad, delivered, under, op>>
-View == <<nsent, wn, wks, wire, rn, rks, rbad, delivered, under>>
+VARIABLES nsent, wn, wks, wire, closed, rn, rks, rbad, delivered, under,
+          rg,          \* armed read glitch: "none", "dataerr", "temperr"
+          wg,          \* armed short write
+          eofd,        \* the last bytes come together with io.EOF
+          nglitch,     \* glitches armed so far (one per behaviour)
+          wdead,       \* the writer got an error: it writes no more
+          reof,        \* the reader has seen io.EOF
+          op
+vars == <<nsent, wn, wks, wire, closed, rn, rks, rbad, delivered, under, rg, wg, eofd, nglitch, wdead, reof, op>>
+View == <<nsent, wn, wks, wire, closed, rn, rks, rbad, delivered, under, rg, wg, eofd, nglitch, wdead, reof>>
 
 Min(a, b) == IF a < b THEN a ELSE b
 Sent == [i \in 1..nsent |-> i]
 IsPrefix(s, t) == Len(s) <= Len(t) /\ \A i \in 1..Len(s) : s[i] = t[i]
 NonceUnit == [k |-> "nonce", pos |-> 0, ks |-> 0]
 
-Init == /\ nsent = 0 /\ wn = FALSE /\ wks = 0 /\ wire = <<>> /\ rn = FALSE /\ rks = 0 /\ rbad = FALSE
-        /\ delivered = <<>> /\ under = 0 /\ op = [name |-> "init"]
+Init == /\ nsent = 0 /\ wn = FALSE /\ wks = 0 /\ wire = <<>> /\ closed = FALSE /\ rn = FALSE /\ rks = 0
+        /\ rbad = FALSE /\ delivered = <<>> /\ under = 0 /\ rg = "none" /\ wg = FALSE /\ eofd = FALSE
+        /\ nglitch = 0 /\ wdead = FALSE /\ reof = FALSE /\ op = [name |-> "init"]
 
 Write(k) ==
+  /\ ~closed /\ ~wdead
   /\ nsent + k <= MaxSent
-  /\ LET hdr == IF wn THEN <<>> ELSE [i \in 1..NonceLen |-> NonceUnit]
-         body == [i \in 1..k |-> [k |-> "data", pos |-> nsent + i, ks |-> wks + i]]
-     IN wire' = wire \o hdr \o body
-  /\ wn' = TRUE /\ wks' = wks + k /\ nsent' = nsent + k
-  /\ op' = [name |-> "write", k |-> k, n |-> k, nonce |-> ~wn]
-  /\ UNCHANGED <<rn, rks, rbad, delivered, under>>
+  /\ LET short == wg /\ k >= 2                 \* the underlying Write takes only a part and reports an error
+         a == IF short THEN k \div 2 ELSE k
+         hdr == IF wn THEN <<>> ELSE [i \in 1..NonceLen |-> NonceUnit]
+         body == [i \in 1..a |-> [k |-> "data", pos |-> nsent + i, ks |-> wks + i]]
+     IN /\ wire' = wire \o hdr \o body
+        /\ nsent' = nsent + a
+        /\ wg' = (wg /\ ~short) /\ wdead' = short
+        /\ op' = [name |-> "write", k |-> k, n |-> a, nonce |-> ~wn, short |-> short]
+  /\ wn' = TRUE /\ wks' = wks + k              \* the key stream advances over the whole input
+  /\ UNCHANGED <<closed, rn, rks, rbad, delivered, under, rg, eofd, nglitch, reof>>
+
+Close == /\ ~closed /\ wn /\ closed' = TRUE /\ op' = [name |-> "close"]
+         /\ UNCHANGED <<nsent, wn, wks, wire, rn, rks, rbad, delivered, under, rg, wg, eofd, nglitch, wdead, reof>>
 
 Rel(b, avail) == IF b = 0 THEN "zero" ELSE IF b < avail THEN "lt" ELSE IF b = avail THEN "eq" ELSE "gt"
 Cap(avail, b) == IF under = 0 THEN Min(b, avail) ELSE Min(Min(b, avail), under)
 Plain(u, at) == IF u.k = "data" /\ u.ks = at /\ ~rbad THEN u.pos ELSE 0
 
-\* Read(out): nonce first (io.ReadFull), then ONE read of the underlying connection
+\* Read(out): nonce first (io.ReadFull), then ONE read of the underlying connection, passed through
 Read(b) ==
+  /\ ~reof
   /\ LET need == IF rn THEN 0 ELSE NonceLen
          avail == Len(wire) - need
      IN /\ Len(wire) >= need
-        /\ (rn => avail > 0)          \* otherwise the call blocks; with the nonce still to take it is
-                                       \* replayed: the nonce is consumed, the data read finds nothing
-        /\ LET n == Cap(avail, b)
+        /\ (rn => (avail > 0 \/ closed))    \* otherwise the call blocks; with the nonce still to take it is
+                                             \* replayed: the nonce is consumed, the data read finds nothing
+        /\ LET temp == rg = "temperr" /\ b > 0 /\ avail > 0
+               n == IF temp THEN 0 ELSE Cap(avail, b)
+               derr == rg = "dataerr" /\ n > 0
+               eof == closed /\ ~temp /\ ((avail = 0) \/ (b > 0 /\ eofd /\ n = avail))
                got == [i \in 1..n |-> Plain(wire[need + i], rks + i)]
                noncebad == ~rn /\ \E i \in 1..need : wire[i].k # "nonce"
            IN /\ delivered' = delivered \o got
               /\ wire' = SubSeq(wire, need + n + 1, Len(wire))
               /\ rks' = rks + n /\ rn' = TRUE /\ rbad' = (rbad \/ noncebad)
-              /\ op' = [name |-> "read", b |-> b, n |-> n, nonce |-> ~rn, dry |-> (avail = 0), avail |-> avail,
-                        rel |-> Rel(b, avail), left |-> avail - n]
-  /\ UNCHANGED <<nsent, wn, wks, under>>
+              /\ rg' = IF temp \/ derr THEN "none" ELSE rg
+              /\ reof' = eof
+              /\ op' = [name |-> "read", b |-> b, n |-> n, nonce |-> ~rn, dry |-> (avail = 0 /\ ~closed),
+                        avail |-> avail, rel |-> Rel(b, avail), left |-> avail - n,
+                        glitch |-> IF temp THEN "temperr" ELSE IF derr THEN "dataerr" ELSE "none",
+                        eof |-> eof]
+  /\ UNCHANGED <<nsent, wn, wks, closed, under, wg, eofd, nglitch, wdead>>
 
 Short(k) == /\ k # under /\ under' = k /\ op' = [name |-> "short", k |-> k]
-            /\ UNCHANGED <<nsent, wn, wks, wire, rn, rks, rbad, delivered>>
+            /\ UNCHANGED <<nsent, wn, wks, wire, closed, rn, rks, rbad, delivered, rg, wg, eofd, nglitch, wdead, reof>>
+
+\* a glitch of the underlying connection is armed (one per behaviour, once the nonce is through)
+Glitch(kind) ==
+  /\ kind \in Glitches /\ nglitch = 0 /\ ~reof
+  /\ \/ kind \in {"dataerr", "temperr"} /\ rn /\ rg' = kind /\ UNCHANGED <<wg, eofd>>
+     \/ kind = "shortwrite" /\ wn /\ ~closed /\ wg' = TRUE /\ UNCHANGED <<rg, eofd>>
+     \/ kind = "eofdata" /\ ~closed /\ eofd' = TRUE /\ UNCHANGED <<rg, wg>>
+  /\ nglitch' = 1
+  /\ op' = [name |-> "glitch", kind |-> kind]
+  /\ UNCHANGED <<nsent, wn, wks, wire, closed, rn, rks, rbad, delivered, under, wdead, reof>>
 
 Next == \/ \E k \in 0..MaxWrite : Write(k)
         \/ \E b \in Bufs : Read(b)
         \/ \E k \in Shorts : Short(k)
+        \/ \E kind \in Glitches : Glitch(kind)
+        \/ Close
 
-TypeOK == nsent \in 0..MaxSent /\ wks = nsent /\ rks <= wks
+TypeOK == nsent \in 0..MaxSent /\ wks >= nsent /\ rks <= wks /\ (wks # nsent => wdead)
+\* also the bytes returned together with an error are the next bytes written, decrypted
 Prefix == IsPrefix(delivered, Sent)
 Complete == (wn /\ rn /\ wire = <<>>) => delivered = Sent
 \* the nonce goes out exactly once and is never handed to the reader as data
 NonceOnce == LET RECURSIVE Cnt(_)
                  Cnt(w) == IF w = <<>> THEN 0 ELSE (IF Head(w).k = "nonce" THEN 1 ELSE 0) + Cnt(Tail(w))
              IN Cnt(wire) = (IF wn /\ ~rn THEN NonceLen ELSE 0)
+\* after a transient error the stream continues intact: the key-stream positions stay in step
 InSync == ~rbad /\ rks = Len(delivered)
+EofAfterAll == reof => delivered = Sent
 =============================================================================
